@@ -105,7 +105,7 @@ def _gen_cases(ctx):
                mode=rng.choice(['fused', 'staged', 'noagg']), buffer=rng.choice([0, 1, 2, 5]))
   # RPC latency: the reply of the first kick-off is late while the other workers drain the input and finish
   for w in (2, 3):
-    for n in ((6, 12) if quick else (3, 6, 9, 12, 20)):
+    for n in ((6 * (w - 1),) if quick else (3, 6, 9, 12, 20)):
       for mode in ('staged', 'noagg', 'fused'):
         for at in (1, 2):
           yield dict(kind='interleaved', workers=w, n=n, mode=mode, buffer=(0, 2)[(w + n) % 2],
@@ -172,6 +172,7 @@ def interleaved_pipeline(n, mode):
 
 def run_interleaved(case):
   ns = L.setup()
+  X.install_exit_guard()
   cl = L.Cluster(case['workers'], [], master=True)
   out = []
   info = {}
@@ -208,15 +209,20 @@ def run_interleaved(case):
           out.append(b)
       info['returned'] = list(runner.result_queue.returned)
 
-    hang, _, exc = L.run_guarded(body, TIMEOUT)
+    hang, _, exc = L.run_guarded(body, 5.0 if lat is not None else TIMEOUT)
     outcome = 'hang' if hang else ('returned' if exc is None else err_kind(exc))
     returned = info.get('returned', [])
-    return dict(outcome=outcome, detail=repr(exc)[:200] if exc is not None else None,
+    obs = dict(outcome=outcome, detail=repr(exc)[:200] if exc is not None else None,
                 batches=sorted(int(b) for b in out if b is not None), nones=sum(1 for b in out if b is None),
                 results=[L.canon_agg(r.agg_result) if isinstance(r, ns.transform.AggregateResult) else repr(r)
                          for r in returned],
                 acquired=cl.acquired(), delayed=(len(lat.delayed) if lat is not None else 0),
                 kick_delayed=(sum(1 for _, m in lat.delayed if m == 'maybe_make') if lat is not None else 0))
+    if hang or oracle(case, obs) is not None:
+      # a run that lost batches leaves producers blocked for ever on the stage queues: they must not wedge the
+      # interpreter's exit (the verdict - an oracle failure with this case as replay - is not affected)
+      X.forget_stuck_threads()
+    return obs
   finally:
     if lat is not None:
       lat.close()
@@ -251,7 +257,12 @@ def run_strict(case):
     return dict(outcome='returned', total=0, totals=[0] * nstages)      # no state at all: the empty merge
   res = runner.get_result(merged)
   keys = ['sc'] + [f'sc{j}' for j in range(1, nstages)]
-  totals = [int(list(res[k])[0]) if k in res else None for k in keys]
+  totals = []
+  for k in keys:       # (no `k in res`: membership on a tree view probes integer indices for ever)
+    try:
+      totals.append(int(list(res[k])[0]))
+    except Exception:  # pylint: disable=broad-except
+      totals.append(None)
   return dict(outcome='returned', total=totals[0], totals=totals)
 
 
